@@ -173,7 +173,7 @@ neighbouring PINs' hashes, invalid PINs. distinct = distinct (pin, seed mod 10!)
     }
     // ---- everything else
     let (n_pins, n_rand): (u32, u64) = match tier {
-        "quick" => (100_000, 2_000_000),
+        "quick" => (100_000, 8_000_000),
         "thorough" => (100_000, 200_000_000),
         _ => (240, 32),
     };
